@@ -11,11 +11,12 @@
    A graph is `dg` (Graph/QueriesSpec.v, shared with C12): entry i lists the parents
    (`nodes_from`) of node i, node i is the i-th element of `graph.nodes`.
    `root_nodes`, `node_children`, `get_edges` and the literal iterative depth-first search
-   `has_cycle` are the C12 models of Graph/Queries.v (imported, not copied).
+   `has_cycle` are the C12 models of Graph/Queries.v (imported, not copied); the breadth-first
+   search of networkx.is_connected is modelled literally in Graph/RulesBfs.v.
 
    Definitions only; proofs are in RulesProofs.v.                                           *)
 From Coq Require Import List Arith Bool.
-From GolemV Require Import Base.Closure Graph.QueriesSpec Graph.Queries.
+From GolemV Require Import Base.Closure Graph.QueriesSpec Graph.Queries Graph.RulesBfs.
 Import ListNotations.
 
 (* ---------------------------------------------------------------------------------------- *)
@@ -159,23 +160,18 @@ Definition isolates (g : dg) : list nat := filter (fun v => Nat.eqb (nx_degree g
 Definition r_no_isolated_nodes (g : dg) : outcome :=
   if negb (is_nil (isolates g)) && negb (Nat.eqb (length g) 1) then RValueError else RTrue.
 
-(* the undirected NetworkX graph on the same nodes and edges *)
-Definition uadj_b (g : dg) (x y : nat) : bool := adj_b g x y || adj_b g y x.
-
-Definition uadjm (g : dg) : bmat := mk (length g) (uadj_b g).
-
-(* networkx.is_connected: every node is found by the search that starts in the first node
-   (NetworkX is third-party code: its search is modelled by what it computes - the set of
-   nodes reachable from the first node - obtained here by n-fold relational composition) *)
-Definition connected_from_first (g : dg) : bool :=
-  let n := length g in
-  let t := tc n (uadjm g) in
-  forallb (fun v => Nat.eqb v 0 || mget t 0 v) (seq 0 n).
-
-(* if number_of_nodes == 0: raise ValueError;  if not is_connected: raise ValueError *)
+(* ud_nx_graph: the undirected NetworkX graph on the same nodes and edges.
+   if number_of_nodes == 0: raise ValueError;  if not nx.is_connected(ud_nx_graph): raise ValueError
+   `nx_is_connected` is the literal model of NetworkX's breadth-first search from the first
+   node (Graph/RulesBfs.v); None = the fuel of the model ran out, which never happens on closed
+   graphs (RulesBfsProofs.v plain_bfs_terminates) *)
 Definition r_no_isolated_components (g : dg) : outcome :=
   if Nat.eqb (length g) 0 then RValueError
-  else if connected_from_first g then RTrue else RValueError.
+  else match nx_is_connected g with
+       | Some true => RTrue
+       | Some false => RValueError
+       | None => ROther
+       end.
 
 Inductive builtin := BHasRoot | BHasOneRoot | BNoCycle | BNoIsoComponents | BNoSelfCycled | BNoIsoNodes.
 
@@ -224,8 +220,13 @@ Definition cond (b : builtin) (g : dg) : Prop :=
 (* ---------------------------------------------------------------------------------------- *)
 (* 4. independent oracle for the structural conditions                                       *)
 (*    boolean matrices only: adjacency, its transitive closure, the symmetrised adjacency    *)
-(*    and its closure.  No depth-first search, no root_nodes / node_children / get_edges.    *)
+(*    and its closure (n-fold relational composition, Base/Closure.v).  No depth-first or    *)
+(*    breadth-first search, no root_nodes / node_children / get_edges.                       *)
 (* ---------------------------------------------------------------------------------------- *)
+Definition uadj_b (g : dg) (x y : nat) : bool := adj_b g x y || adj_b g y x.
+
+Definition uadjm (g : dg) : bmat := mk (length g) (uadj_b g).
+
 Record roracle := { ro_n : nat; ro_adj : bmat; ro_tc : bmat; ro_utc : bmat }.
 
 Definition mk_roracle (g : dg) : roracle :=
